@@ -47,7 +47,7 @@ def required_cells(tier):
             'search-path-shape:nothing-there:nothing', 'search-path-shape:second-entry:found',
             'search-path-shape:first-entry:found', 'search-path-shape:tuple:found',
             'import:requested-file-wins-a-name-conflict', 'import:zip-archive:ok', 'import:zip-archive:raises',
-            'resolve:through-a-symlink-below-the-root']
+            'resolve:through-a-symlink-below-the-root', 'import:submodule-name-rebound-by-the-package']
 
 
 def build(rng, root, uniq):
@@ -89,6 +89,22 @@ def build(rng, root, uniq):
                         f.write('X = 1\n')
                 if depth < 2:
                     mk(sub, depth + 1)
+                if kind not in ('nsdir', 'mod_nsdir') and rng.random() < 0.3:
+                    # the package re-exports a function named like the submodule that defines it (from .tqdm import
+                    # tqdm): the package attribute of that name is the function, sys.modules still holds the module
+                    for fn in sorted(os.listdir(sub)):
+                        child = fn[:-3]
+                        cpath = os.path.join(sub, fn)
+                        if (fn.endswith('.py') and child.isidentifier() and not child.startswith('__')
+                                and not os.path.isdir(os.path.join(sub, child))
+                                and not any(os.path.exists(os.path.join(sub, child + sfx)) for sfx in M.EXTENSION_SUFFIXES)
+                                and 'XV_IMPORT_FAILS' not in open(cpath).read()):
+                            with open(cpath, 'a') as f:
+                                f.write('def %s():\n    return NAME\n' % child)
+                            with open(os.path.join(sub, '__init__.py'), 'a') as f:
+                                f.write('from .%s import %s\n' % (child, child))
+                            feats.add('package-rebinds-the-submodule-name')
+                            break
             feats.add(kind)
     mk(root, 0)
     if rng.random() < 0.5:
@@ -339,6 +355,16 @@ def check_tree(ctx, idx, seed):
                 ctx.violation('import-syspath', 'import_module_from_path(%r) changed sys.path: %r' % (got, d), case)
                 continue
             ctx.cell('import')
+            if mod is not sys.modules.get(name):
+                ctx.violation('import', 'import_module_from_path(%r) returned %r, which is not sys.modules[%r]' % (got, mod, name),
+                              case)
+                continue
+            try:
+                pinit = open(os.path.join(os.path.dirname(got), '__init__.py')).read()
+            except OSError:
+                pinit = ''
+            if 'from .%s import %s\n' % (parts[-1], parts[-1]) in pinit:
+                ctx.cell('import:submodule-name-rebound-by-the-package')
             if rng.random() < 0.35:
                 # two entries on sys.path hold a top-level module of this name, the other one comes first;
                 # import_module_from_path(path, index=0) is the documented way to make the requested file win
